@@ -69,6 +69,7 @@ def exec (s : Sess) : Stmt → Sess × Out
   | .createDatabase name =>
     let n := canon name
     if !validDbName name then (s, .err "invalidDbName") else
+    if name.isEmpty then (s, .err "noDbSelected") else      -- `dbFilePath("")`: ErrDBNotSelected
     if (getDB s n).isSome then (s, .err "dbExists") else
     match createDB [] {} with
     | .ok _ st => (setDB s n { store := reopen st, wal := [] }, .ok)
@@ -76,6 +77,7 @@ def exec (s : Sess) : Stmt → Sess × Out
   | .use name =>
     let n := canon name
     if !validDbName name then (s, .err "invalidDbName") else
+    if name.isEmpty then (s, .err "noDbSelected") else
     if (getDB s n).isNone then (s, .err "dbNotExist")
     else
       -- the previously selected database is closed (flushed); selecting the current one again changes nothing
